@@ -245,4 +245,37 @@ theorem addAll_group (ps : List (Str × Str)) : (addAll {} ps).map (·.out) = .o
   simp only [Except.map, List.nil_append] at h2 ⊢
   rw [h2.out]
 
+/-! ### `FormsDict(query, **forms)` -/
+
+theorem Dict.set_not_mem {β} (d : Dict β) (k : Str) (x : β) (h : k ∉ d.map (·.1)) : d.set k x = d ++ [(k, x)] := by
+  induction d with
+  | nil => rfl
+  | cons a r ih =>
+    simp only [List.map_cons, List.mem_cons, not_or] at h
+    simp only [Dict.set]
+    rw [if_neg (fun e => h.1 e.symm), ih h.2]
+    rfl
+
+/-- `FormsDict(q, **f)` when the keys of `f` are distinct and new: `f` is appended -/
+theorem foldl_set_append {β} (d pre : Dict β) (h : (pre ++ d).map (·.1) |>.Nodup) :
+    d.foldl (fun acc p => Dict.set acc p.1 p.2) pre = pre ++ d := by
+  induction d generalizing pre with
+  | nil => simp
+  | cons a r ih =>
+    have hk : a.1 ∉ pre.map (·.1) := by
+      intro hm
+      rw [List.map_append, List.nodup_append] at h
+      exact h.2.2 _ hm _ (by simp) rfl
+    simp only [List.foldl_cons]
+    rw [Dict.set_not_mem pre a.1 a.2 hk, ih (pre ++ [(a.1, a.2)]) (by simpa using h)]
+    simp
+
+theorem group_keys (ps : List (Str × Str)) : (group ps).map (·.1) = firstKeys ps := by
+  simp [group, List.map_map, Function.comp_def]
+
+theorem foldl_set_group (ps : List (Str × Str)) :
+    (group ps).foldl (fun acc p => Dict.set acc p.1 p.2) [] = group ps := by
+  rw [foldl_set_append _ [] (by simpa [group_keys] using firstKeys_nodup ps)]
+  simp
+
 end Ombott.Qs
